@@ -192,9 +192,10 @@ CHECKS = {
     ),
     "C07": dict(
         title="Pub/sub delivers each message once, intact, and isolates bad messages",
-        legs=[leg("TestC07PubSub", quick=(80, 4), thorough=(1000, 16), timeout_s=3000, prefixes=["c07."])],
+        legs=[leg("TestC07PubSub", quick=(80, 4), thorough=(1000, 16), timeout_s=3000, prefixes=["c07.pubsub"]),
+              leg("TestBedC07", module="idl", quick=(1500, 4), thorough=(15000, 16), timeout_s=3000, prefixes=["c07.bed", "bed."], env={"VERIF_BED_PROGRAMS": "6"})],
         level="exploration",
-        technique="property-based testing (rapid): generated publish sequences (valid / malformed / foreign-topic) over in-process NATS and STOMP brokers, history invariant on the recorded handler invocations",
+        technique="property-based testing (rapid): generated publish sequences (valid / malformed / foreign-topic) over in-process NATS and STOMP brokers, history invariant on the recorded handler invocations; plus the generated Go publishers/subscribers of generated scopes executed against a recording in-memory broker",
         rule=("Sequences of 1..40 publishes on a scope topic: valid (payload + user headers + correlation id through the real publisher client), malformed (0-3 bytes, bad version, hostile header size, wrong op name, truncated payload), "
               "foreign topic (other operation, other prefix value, other scope); NATS subscriber with 1..4 workers with/without queue group, STOMP topic subscriber; binary/compact/JSON; on NATS 0..3 publishes after Unsubscribe returned. "
               "Non-trivial: a valid message after a malformed one, or a foreign-topic message, or a post-unsubscribe publish. Distinct: sha256 of the sequence + configuration."),
@@ -279,7 +280,7 @@ CHECKS = {
         title="Generated Go types encode and decode exactly what the IDL declares",
         legs=[leg("TestBedC02", module="idl", quick=(4000, 4), thorough=(40000, 16), timeout_s=3000, prefixes=["c02.", "bed."], env={"VERIF_BED_PROGRAMS": "6"})],
         level="exploration",
-        technique="property-based testing (rapid) of generated Go code: generated multi-file IDL programs are compiled by the working-tree compiler, built into a scratch module and exercised by a reflection driver; oracle = independent schema-less Thrift value trees computed from the IDL model (round trip through generated Read and Write)",
+        technique="property-based testing (rapid) of generated Go code: generated multi-file IDL programs are compiled by the working-tree compiler, built into a scratch module and exercised by a reflection driver; oracle = independent schema-less Thrift value trees computed from the IDL model (round trip through generated Read and Write; values built in Go, fresh New<T>() values and encodings that omit default-requiredness fields are written and compared with the declared defaults)",
         rule=("Per shard a batch of 6 generated programs (up to 3 files; typedef chains, includes, enums, nested containers to depth 3, required/default/optional, unions, exceptions, args/result structs of every service method) is compiled to Go and linked with the driver; "
               "cases: (struct type, protocol in {binary, compact, JSON}, a conforming wire tree drawn from the model with optional fields present or absent, field order rotation, 0..3 unknown fields of random wire types, optionally one required field dropped). "
               "Non-trivial: a type with a typedef'd, include-qualified or container-of-custom-type field and a non-empty value. Distinct: sha256 of (program text, type, tree, perturbation, protocol)."),
